@@ -1674,13 +1674,14 @@ package rtcp
 //@   ensures[C02] ssrcs: forall k :: err == nil && 0 <= k && k < len(p.SSRCs) ==> q.SSRCs[k] == p.SSRCs[k]
 //@   ensures[C02,C14] quantised: err == nil && p.Bitrate >= 1 ==> q.Bitrate <= p.Bitrate
 
-//@ func lemmaRoundTripXR(p ExtendedReport) (q ExtendedReport, err error, err2 error)
+//@ func lemmaRoundTripXR(p ExtendedReport) (orig ExtendedReport, q ExtendedReport, err error, err2 error)
 //@   lemma
 //@   trusted
 //@   bounded[C15,C02] genXR
 //@   ensures encodes: err == nil
 //@   ensures decodes: err == nil && specXRAllAligned(p.Reports, len(p.Reports)) ==> err2 == nil
 //@   ensures same: err == nil && err2 == nil && specXRAllAligned(p.Reports, len(p.Reports)) && specXRRepresentable(p.Reports, len(p.Reports)) ==> q.SenderSSRC == p.SenderSSRC && len(q.Reports) == len(p.Reports) && specXRBlocksEq(p.Reports, q.Reports, len(p.Reports), true)
+//@   ensures original: err == nil && err2 == nil && specXRAllAligned(orig.Reports, len(orig.Reports)) && specXRRepresentable(orig.Reports, len(orig.Reports)) ==> q.SenderSSRC == orig.SenderSSRC && len(q.Reports) == len(orig.Reports) && specXRBlocksEq(orig.Reports, q.Reports, len(orig.Reports), false)
 //@   ensures kinds: forall k :: err == nil && err2 == nil && 0 <= k && k < len(q.Reports) ==> q.Reports[k] != nil && specXRKind(q.Reports[k])
 
 //@ func lemmaXRFraming(p ExtendedReport) (out []byte, err error)
